@@ -41,7 +41,8 @@ inductive Act where
   | resubmit (i : Nat) (ckOk : Bool)   -- ... and, after its refresh checkpoint (ok / failed), submits the branch again
   | tick (d : Nat)             -- time passes
   | cancel (i : Nat)           -- the woken main thread cancels branch i's task before a worker started it
-  | wake                       -- the main thread leaves `execute` (remaining queued tasks cancelled, outcome fixed)
+  | wake                       -- the main thread reads the fatal / suspend flags: raises, or decides to return a result
+  | snapshot                   -- ... and builds that result from the branch statuses (remaining queued tasks cancelled)
   deriving DecidableEq, Repr, Inhabited
 
 /-- What the main thread does after waking. -/
@@ -70,6 +71,7 @@ structure St where
   submitted : Nat             -- how many of the initial tasks the main thread has submitted so far
   refreshing : Option Nat     -- the branch whose resumption is between reset_to_pending and its re-submission
   ended : List (Nat × Fin)    -- tasks whose function has ended and whose done-callback has not run yet
+  returning : Bool            -- the main thread found neither flag set and is about to build the result
 
 /-- `execute` before the first task is submitted, for n > 0 branches: every branch is PENDING
 (`ExecutableWithState.__init__`).  The main thread then submits the branches one by one (`submit`), and only after
@@ -79,7 +81,7 @@ def init (n maxConc : Nat) (cfg : Policy.Cfg) : St :=
   { n := n, maxWorkers := if maxConc = 0 then n else maxConc, cfg := cfg,
     status := fun i => if i < n then .pending else .completed,
     queue := [], active := [], succ := 0, fail := 0, evt := false, suspendExc := none,
-    fatal := false, clock := 0, timers := [], out := none, maxActive := 0, submitted := 0, refreshing := none, ended := [] }
+    fatal := false, clock := 0, timers := [], out := none, maxActive := 0, submitted := 0, refreshing := none, ended := [], returning := false }
 
 def setStatus (s : St) (i : Nat) (b : BSt) : St :=
   { s with status := fun x => if x = i then b else s.status x }
@@ -192,19 +194,32 @@ def cancel_ (s : St) (i : Nat) : Option St :=
   else if i ∉ s.queue then none
   else some { (setStatus s i .suspended) with queue := s.queue.erase i }
 
-/-- The main thread after `_completion_event.wait()` (executor.py:245-270): cancel the futures that have
-not started (their done-callback marks them SUSPENDED), then raise the fatal exception, or the suspend
-exception, or build the result from the current statuses. -/
+/-- The main thread reads the flags (executor.py:268-276, after the timer scheduler has stopped): it raises the fatal
+exception, or the suspend exception (queued tasks are cancelled by the pool shutdown in `finally`), or goes on to
+return a result (`returning`), which is built by `snapshot`. -/
 def wake (s : St) : Option St :=
   if ¬ s.evt then none
   else if s.submitted < s.n then none
   else if s.out.isSome then none
+  else if s.returning then none
+  else
+    if s.fatal ∨ s.suspendExc.isSome then
+      let s := { s with status := fun x => if x ∈ s.queue then .suspended else s.status x, queue := [] }
+      if s.fatal then some { s with out := some .fatal }
+      else match s.suspendExc with
+        | some k => some { s with out := some (.suspend k) }
+        | none => none
+    else some { s with returning := true }
+
+/-- `_create_result()` (executor.py:283, 362-402), a moment AFTER the flags were read: the pool has been shut down
+(`finally`, remaining queued tasks cancelled) and the result is built from the statuses as they are NOW - callbacks of
+tasks that ended in between have been accounted (a fatal flag set in between is no longer looked at). -/
+def snapshot (s : St) : Option St :=
+  if ¬ s.returning then none
+  else if s.out.isSome then none
   else
     let s := { s with status := fun x => if x ∈ s.queue then .suspended else s.status x, queue := [] }
-    if s.fatal then some { s with out := some .fatal }
-    else match s.suspendExc with
-      | some k => some { s with out := some (.suspend k) }
-      | none => some { s with out := some (.result ((List.range s.n).map s.status)) }
+    some { s with out := some (.result ((List.range s.n).map s.status)) }
 
 def step (s : St) : Act → Option St
   | .submit i => submit_ s i
@@ -216,6 +231,7 @@ def step (s : St) : Act → Option St
   | .tick d => tick s d
   | .cancel i => cancel_ s i
   | .wake => wake s
+  | .snapshot => snapshot s
 
 def runActs : St → List Act → Option St
   | s, [] => some s
